@@ -121,6 +121,19 @@ def queries(o, sd_base, prms, lohis, ops_kw, rng_seed):
             return [list(o.sample_size), len(o.evalpts), list(o.evalpts[-1])]
         rec('evalpts-per-direction-sizes', per_dir)
         o.sample_size = ss
+    # a sampled grid over part of the domain, its limits at the middle of the domain in alternating roles (on a range that is
+    # symmetric about zero that limit is the parameter 0.0)
+    def partial():
+        kw_ = {}
+        for d_, nm_ in enumerate(['']) if pdim == 1 else enumerate(['_u', '_v', '_w'][:pdim]):
+            lo_, hi_ = (0.5, 0.9) if d_ % 2 == 0 else (0.1, 0.5)
+            kw_['start' + nm_] = amap(lo_, lohis[d_])
+            kw_['stop' + nm_] = amap(hi_, lohis[d_])
+        o.evaluate(**kw_)
+        res_ = [list(p) for p in o.evalpts]
+        o.evaluate()
+        return res_
+    rec('evalpts-partial', partial)
     rec('bbox', lambda: [list(b) for b in o.bbox])
     if pdim == 2:
         def tess():
@@ -211,7 +224,7 @@ def check_config(case, ctx):
         V = queries(v2, sd, prms, (0.0, 1.0), {}, qseed)
         compare(V, 'evaluator2', 'evaluator2')
     # ---- un-normalised knot vectors over an affine image of the range -----------------------------------------------------------------
-    ranges = [(0.0, 1.0), (2.0, 5.0), (-3.0, 7.5), (10.0, 10.5)]
+    ranges = [(0.0, 1.0), (2.0, 5.0), (-3.0, 7.5), (10.0, 10.5), (-1.0, 1.0), (-2.0, 2.0)]
     for rep in range(2):
         # the same range in every direction, or a different range per direction
         lohis = [rng.choice(ranges)] * pdim if rep == 0 else [rng.choice(ranges) for _ in range(pdim)]
